@@ -210,8 +210,8 @@ PLANS["C01"]["thorough"].append(st("rel", "conc", 40000, 400, 8, 3000, mode="str
 PLANS["C01"]["thorough"].append(st("dbg", "conc", 400000, 6, 16, 3000, mode="controlled"))
 
 # C04: an insertion whose default-filler construction panics must leave the map unchanged
-PLANS["C04"]["quick"].append(st("dbg", "panicdrop", 1632, 12, 8, only_op="insert_with_panicking_default"))
-PLANS["C04"]["thorough"].append(st("rel", "panicdrop", 1632 * 20, 12, 16, 3000, only_op="insert_with_panicking_default"))
+PLANS["C04"]["quick"].append(st("dbg", "panicdrop", 1632, 12, 8, only_op="insert_with_panicking_default+clear"))
+PLANS["C04"]["thorough"].append(st("rel", "panicdrop", 1632 * 20, 12, 16, 3000, only_op="insert_with_panicking_default+clear"))
 
 # C20 over the histories of the world and storage engines (every creation / deletion path, lazy updates,
 # all storage kinds): each case is replayed twice in-process and hashed for the cross-process comparison
